@@ -35,8 +35,9 @@ class Recorder(jsl.DispatcherObserver):
     """Test observer: logs every call it receives with a snapshot of what the dispatcher shows then."""
     _is_singleton = False
 
-    def __init__(self, dispatcher, *, subscribe=True, trace=None, rid=None):
+    def __init__(self, dispatcher, *, subscribe=True, trace=None, rid=None, tag=0):
         super().__init__(dispatcher, subscribe=subscribe)
+        self.tag = tag
         self.log = []
         self.trace = trace if trace is not None else []
         self.rid = rid
@@ -80,7 +81,7 @@ class ImplWorld(ImplExt):
         kind = ts[0]
         cls = KINDS[kind]
         try:
-            obs = cls(self.dispatcher)
+            obs = cls(self.dispatcher, tag=int(ts[1])) if len(ts) > 1 else cls(self.dispatcher)
         except Exception:  # pylint: disable=broad-except
             return "raise"
         return str(self._register(obs, kind))
@@ -89,6 +90,18 @@ class ImplWorld(ImplExt):
         kind = ts[0]
         try:
             obs = self.dispatcher.create_or_get_observer(KINDS[kind])
+        except Exception:  # pylint: disable=broad-except
+            return "raise"
+        for i, o in enumerate(self.heap):
+            if o is obs:
+                return str(i)
+        return str(self._register(obs, kind))
+
+    def cmd_cogc(self, ts):
+        kind, tag = ts[0], int(ts[1])
+        try:
+            obs = self.dispatcher.create_or_get_observer(
+                KINDS[kind], condition=lambda o: getattr(o, "tag", 0) == tag, tag=tag)
         except Exception:  # pylint: disable=broad-except
             return "raise"
         for i, o in enumerate(self.heap):
